@@ -1858,6 +1858,8 @@ def custom_env(cu):
     st = state_from_str(s0)
     h, w = st.grid.shape.as_tuple
     kinds = [k for k in grid_object_registry if k.__name__ not in ('NoneGridObject', 'Hidden')]
+    if cu.get('representable'):
+        kinds = [k for k in kinds if k.can_be_represented_in_state()]
     chain = functools.partial(trf.chain, transition_functions=[trf.transition_function_registry[n] for n in cu['trans']])
     rewards = [functools.partial(rf.living_reward, reward=-0.5), functools.partial(rf.reach_exit, reward_on=5.0, reward_off=0.0),
                functools.partial(rf.bump_into_wall, reward=-1.0)]
@@ -2133,11 +2135,26 @@ class C20(Oracle):
     prop = 'C20'
 
     def gen(self, rng):
-        g = gen_env_cases(rng, p_random=0.0)
+        g = gen_env_cases(rng, p_random=0.3)
         while True:
             c = next(g)
             c['enc'] = rng.choice(['default', 'no-overlap', 'compact'])
             c['mode'] = rng.choice(['make', 'direct', 'state'])
+            if 'config' in c:
+                # a composition no file describes (non-square grids among them), wrapped directly
+                c['mode'] = rng.choice(['direct', 'state'])
+                c['reads'] = [r.replace('b', '') for r in c['reads']]
+            # another environment lives in the same process and was used first: the same description with
+            # another colour set of the same extent
+            c['decoy'] = rng.random() < 0.5
+            if rng.random() < 0.15:
+                # a user-reset world (wide or tall, no border wall, the agent anywhere) behind the adapter
+                hh, ww = rng.choice([(2, rng.randint(4, 12)), (rng.randint(4, 12), 2), (3, 9), (9, 3), (rng.randint(2, 6), rng.randint(2, 6))])
+                st = gen.mk_state(hh, ww, {(rng.randrange(hh), rng.randrange(ww)): rng.choice(['W', 'K1', 'E0', 'D11'])}, 0, 0, rng.choice(gen.ORIENTS))
+                free = [p for p in st.grid.area.positions() if not blocks(st.grid[p])]
+                st.agent.position = rng.choice(free) if rng.random() < 0.5 else max(free, key=lambda p: (p.x, p.y) if ww > hh else (p.y, p.x))
+                yield {'kind': 'customgym', 'custom': {'state': enc_state(st), 'area': [-2, 0, -1, 1], 'obs': 'fully_transparent', 'trans': ['move_agent', 'turn_agent'], 'representable': True},
+                       'seed': rng.randrange(2**31), 'actions': [rng.randrange(6) for _ in range(rng.randint(2, 12))], 'enc': c['enc']}
             # keep stepping after a terminal step (the adapter forwards every step) in half of the cases
             c['noreset'] = rng.random() < 0.5
             if rng.random() < 0.5:
@@ -2163,10 +2180,77 @@ class C20(Oracle):
         from gym_gridverse.representations.state_representations import make_state_representation
 
         out = []
-        fname = os.path.basename(c['file'])
+        import copy
+
+        if c.get('kind') == 'customgym':
+            try:
+                inner = custom_env(c['custom'])
+            except Exception:
+                return out
+            genv = GymEnvironment(OuterEnv(inner, observation_representation=make_observation_representation('default', inner.observation_space)))
+            genv.set_observation_representation(c['enc'])
+            if not inner.state_space.can_be_represented:
+                return out
+            genv.set_state_representation(c['enc'])
+            w = GymStateWrapper(genv)
+            inner.set_seed(c['seed'])
+            where = f'user-reset world {c["custom"]["state"]} enc={c["enc"]}'
+            try:
+                o = w.reset()
+                o = o[0] if isinstance(o, tuple) else o
+                k = -1
+                while True:
+                    h_, w_ = inner.state.grid.shape.as_tuple
+                    p_ = inner.state.agent.position
+                    if not w.observation_space.contains(o) or not genv.state_space.contains(genv.state):
+                        out.append(V('gym/state-outside-advertised-space', f'{where} step {k}: agent at {p_} gives {list(o["agent"][:2])}'))
+                        break
+                    k += 1
+                    if k >= len(c['actions']):
+                        break
+                    res = w.step(c['actions'][k] % genv.action_space.n)
+                    o = res[0]
+                    if not genv.observation_space.contains(res[-1]['observation']):
+                        out.append(V('gym/observation-outside-advertised-space', f'{where} step {k}'))
+                        break
+            except Exception as e:
+                out.append(V('gym/state-wrapper-raises', f'{where}: {type(e).__name__}: {e}'))
+            return out
+        base = copy.deepcopy(c['config']) if 'config' in c else load_cfg(c['file'])
+        if c.get('decoy'):
+            try:
+                dd = copy.deepcopy(base)
+                names = ['NONE', 'RED', 'GREEN', 'BLUE', 'YELLOW']
+                for sp_ in ('state_space', 'observation_space'):
+                    cols = list(dd[sp_]['colors'])
+                    top = max(names.index(x) for x in cols)
+                    lower = [x for x in names[1:top] if x not in cols]
+                    if lower:
+                        cols.insert(1, lower[0])
+                    elif len(cols) > 2:
+                        cols.remove(sorted(cols, key=names.index)[1])
+                    dd[sp_]['colors'] = cols
+                di = build_env(None, dd)
+                dg = GymEnvironment(OuterEnv(di, observation_representation=make_observation_representation('default', di.observation_space)))
+                dg.set_observation_representation(c['enc'])
+                if di.state_space.can_be_represented:
+                    dg.set_state_representation(c['enc'])
+                di.set_seed(c['seed'] + 1)
+                dg.reset()
+            except Exception:
+                pass
+        fname = os.path.basename(c['file']) if 'file' in c else 'random composition'
         path = os.path.join(gvenv.REPO, 'gym_gridverse', 'registered_envs', fname)
         gid = [k for k, v in STRING_TO_YAML_FILE.items() if v == fname]
-        if c['mode'] == 'make' and gid:
+        data = None
+        if 'config' in c:
+            data = copy.deepcopy(c['config'])
+            if 'action_list' in c:
+                data['action_space'] = list(c['action_list'])
+            inner0 = build_env(None, data)
+            genv = GymEnvironment(OuterEnv(inner0, observation_representation=make_observation_representation('default', inner0.observation_space)))
+            w = genv
+        elif c['mode'] == 'make' and gid:
             w = gym.make(gid[0], disable_env_checker=True)
             genv = w.unwrapped
         elif 'action_list' in c:
@@ -2179,7 +2263,7 @@ class C20(Oracle):
             genv = GymEnvironment(outer_env_factory(path))
             w = genv
         genv.set_observation_representation(c['enc'])
-        shadow = build_env(None, data) if 'action_list' in c else build_env(c['file'])
+        shadow = build_env(None, data) if data is not None else build_env(c['file'])
         listed = [Action[n] for n in c['action_list']] if 'action_list' in c else list(shadow.action_space.actions)
         inner = genv.outer_env.inner_env
         orep = make_observation_representation(c['enc'], shadow.observation_space)
@@ -2266,7 +2350,18 @@ def gen_space_cases(rng):
         if rng.random() < 0.8:
             kinds = [k for k in kinds if GRID_KINDS[k].__name__ != 'Box'] or [0]
         colors = rng.sample(range(1, 5), rng.randint(0, 4))
-        yield {'kind': 'space', 'kinds': sorted(kinds), 'colors': sorted(colors), 'h': rng.randint(2, 5), 'w': rng.randint(2, 5), 'enc': rng.choice(['default', 'no-overlap', 'compact']), 'seed': rng.randrange(2**31), 'obs': rng.random() < 0.5}
+        c = {'kind': 'space', 'kinds': sorted(kinds), 'colors': sorted(colors), 'h': rng.randint(2, 5), 'w': rng.randint(2, 5), 'enc': rng.choice(['default', 'no-overlap', 'compact']), 'seed': rng.randrange(2**31), 'obs': rng.random() < 0.5}
+        if rng.random() < 0.2:
+            # long grids (every side length up to 40 comes up; the property speaks of shapes of at least 2x2: a
+            # 1-wide grid has no normalised coordinate, the library divides by zero there), the agent on the
+            # last row / column: the normalised coordinates reach exactly their bounds there
+            if rng.random() < 0.5:
+                c['h'], c['w'] = rng.randint(6, 40), rng.randint(2, 3)
+            else:
+                c['h'], c['w'] = rng.randint(2, 3), rng.randint(6, 40)
+            c['edge'] = rng.randint(1, 3)
+            c['obs'] = False
+        yield c
 
 
 def _space_objs(c):
@@ -2337,7 +2432,9 @@ class C15(Oracle):
                 ssp = StateSpace(Shape(h, w), kinds, colors)
                 if ssp.can_be_represented:
                     # near-members too: whatever the space accepts must convert into the space
-                    s = random_member_state(rng, h, w, kinds, colors, p_bad=0.4)
+                    s = random_member_state(rng, h, w, kinds, colors, p_bad=0.4 if not c.get('edge') else 0.0)
+                    if c.get('edge'):
+                        s.agent.position = Position(h - 1 if c['edge'] & 1 else s.agent.position.y, w - 1 if c['edge'] & 2 else s.agent.position.x)
                     if s.grid.shape.as_tuple == (h, w) and in_grid(s.grid, s.agent.position) and ssp.contains(s):
                         before = len(out)
                         check_rep(make_state_representation(c['enc'], ssp), s, 'state')
